@@ -7,4 +7,67 @@ EXTENDS CanvasCells
 Page43 == [rows |-> 3, cols |-> 4, sz |-> <<0, 1, 4, 0,  3, 4, 2, 0,  7, 5, 6, 0>>]
 (* 5 x 3: wide characters at the left and right edge *)
 Page53 == [rows |-> 3, cols |-> 5, sz |-> <<1, 4, 0, 1, 4,  0, 3, 4, 2, 0,  0, 7, 5, 6, 0>>]
+ASSUME SmallPagesFit == WellFormed(Page43) /\ WellFormed(Page53)
+SmallPages == {Page43}
+SmallPages2 == {Page53}
+
+(* ---- Edge pages: one character of every size (and every lone continuation cell) in EVERY column and row of a page,
+   including the last ones where the character is clipped by the page.
+
+   Geometry [rows, cols, fr, fc]: an edge page stands for a real page of any larger size: row fr and column fc (the
+   FILLER) stand for the run of real rows / columns between the first fr - 1 and the last rows - fr rows (fc - 1, cols -
+   fc columns); all cells of the filler have normal size.  With that the model page is a homomorphic image of the real
+   one: neighbours, the page's edges and Shown / Cuts / Post of a region are preserved (a region edge inside the filler
+   stands for an edge anywhere in the run).  Trace_CanvasCells checks this correspondence for every page and region that
+   was generated from here (Abstracts, RegionMaps).
+
+   A page is given by a descriptor d = [via, k, r, c]:
+     via = "edit"    the sizes Place writes for a character of size k at (r, c), clipped at the page's edges, k in 1..7
+                     (k in 4..7: a lone continuation cell).  Any such page can be made by the application (vbi_page is a
+                     public structure); the harness edits a fetched page.
+     via = "copy", "blank"   what the Teletext formatter makes of an enhancement character of size k in 1..3 at (r, c),
+                     c < cols (teletext.c post_enhance(), column_41()): it places the character on the 40 columns of the
+                     transmitted page (clipped at column 40, i.e. the model's column cols - 1; the LAST row of the page is
+                     not post-processed: a character there gets no OVER_TOP cell, a character in the row above it no lower
+                     half) and then adds the 41st column, which is either a copy of the 40th (with its size attribute: a
+                     double width / size cell in column 40 gives one in column 41; always so in the header row) or
+                     blank.  These pages are obtained by really decoding X/26 packets.
+     via = "wrap"    a wide cell of size k in the last column of row r and an OVER_TOP cell in the first column of row
+                     r + 1 (neighbours in memory, not on the page): by editing.                                       *)
+Normal(rows, cols) == [rows |-> rows, cols |-> cols, sz |-> [i \in 1..(rows * cols) |-> 0]]
+SetSz(p, r, c, z) == IF OnPage(p, r, c) THEN [p EXCEPT !.sz[(r - 1) * p.cols + c] = z] ELSE p
+Place(p, k, r, c) == CASE k = 1 -> SetSz(SetSz(p, r, c, 1), r, c + 1, 4)
+                       [] k = 2 -> SetSz(SetSz(p, r, c, 2), r + 1, c, 6)
+                       [] k = 3 -> SetSz(SetSz(SetSz(SetSz(p, r, c, 3), r, c + 1, 4), r + 1, c, 7), r + 1, c + 1, 5)
+                       [] OTHER -> SetSz(p, r, c, k)
+\* the formatter: continuation cells right of the character in all rows but the last, below it in all rows but the last two
+PlaceF(p, k, r, c) == LET right(q) == IF r <= p.rows - 1 THEN SetSz(q, r, c + 1, 4) ELSE q
+                          vert == r <= p.rows - 2 IN
+                      CASE k = 1 -> right(SetSz(p, r, c, 1))
+                        [] k = 2 -> IF vert THEN SetSz(SetSz(p, r, c, 2), r + 1, c, 6) ELSE SetSz(p, r, c, 2)
+                        [] k = 3 -> IF vert THEN Place(p, 3, r, c) ELSE right(SetSz(p, r, c, 3))
+\* the 41st column: p has cols - 1 columns (in the header row it is always a copy)
+AddColumn(p, copy) == [rows |-> p.rows, cols |-> p.cols + 1,
+                       sz |-> [i \in 1..(p.rows * (p.cols + 1)) |->
+                                 LET r == ((i - 1) \div (p.cols + 1)) + 1  c == ((i - 1) % (p.cols + 1)) + 1 IN
+                                 IF c <= p.cols THEN Sz(p, r, c) ELSE IF copy \/ r = 1 THEN Sz(p, r, p.cols) ELSE 0]]
+PageOf(g, d) == IF d.via = "edit" THEN Place(Normal(g.rows, g.cols), d.k, d.r, d.c)
+                ELSE IF d.via = "wrap" THEN SetSz(SetSz(Normal(g.rows, g.cols), d.r, g.cols, d.k), d.r + 1, 1, 4)
+                ELSE AddColumn(PlaceF(Normal(g.rows, g.cols - 1), d.k, d.r, d.c), d.via = "copy")
+\* the character must not touch the filler: all cells of the filler row and column keep normal size
+Fits(g, d) == /\ d.c <= (IF d.via = "edit" THEN g.cols ELSE g.cols - 1)
+              /\ d.via \in {"copy", "blank"} => d.k \in 1..3
+              /\ d.via = "wrap" => d.c = 1 /\ Wide(d.k) /\ d.r < g.rows
+              /\ LET p == PageOf(g, d) IN
+                 /\ \A rc \in Cells(p) : (rc[1] = g.fr \/ rc[2] = g.fc) => Sz(p, rc[1], rc[2]) = 0
+                 /\ \A rc \in Cells(p) : \A x \in CharCells(p, rc[1], rc[2]) : x[1] # g.fr /\ x[2] # g.fc      \* (a wide cell without its OVER_ cell)
+Descs(g, kinds) == {d \in [via : {"edit", "copy", "blank", "wrap"}, k : kinds, r : 1..g.rows, c : 1..g.cols] : Fits(g, d)}
+EdgePages(g, kinds) == {PageOf(g, d) : d \in Descs(g, kinds)} \cup {Normal(g.rows, g.cols)}
+
+GeoQ == [rows |-> 4, cols |-> 6, fr |-> 2, fc |-> 3]         \* 1 + filler + 2 rows, 2 + filler + 3 columns
+GeoT == [rows |-> 5, cols |-> 6, fr |-> 3, fc |-> 3]         \* 2 + filler + 2 rows
+EdgePagesQ == EdgePages(GeoQ, 1..7)
+EdgePagesT == EdgePages(GeoT, 1..7)
+\* the arrangement the statement's counterexample needs is among them
+ASSUME EdgeHasWideLastColumn == \E p \in EdgePagesQ : \E r \in 1..p.rows : Wide(Sz(p, r, p.cols))
 =============================================================================
